@@ -212,6 +212,14 @@ def run(ctx):
                 is_guard = True
             if n["k"] == "AtomicExpr" and ("load" in n.get("op", "") or "compare_exchange" in n.get("op", "")):
                 is_guard = "rproc.st" in f.src(n["c"][0])
+            if n["k"] == "CallExpr" and n.get("callee") and depth < 3:
+                # a private helper that makes the atomic test and hands the verdict back: the caller's branch
+                # on its result (with a dying arm, checked below) is the guard
+                g2 = prog.resolve(f, n["callee"])
+                if g2 is not None and g2 is not f and g2.static and g2.file == OV and any(
+                        m_["k"] == "AtomicExpr" and ("load" in m_.get("op", "") or "compare_exchange" in m_.get("op", ""))
+                        and "rproc.st" in g2.src(m_["c"][0]) for m_ in g2.nodes):
+                    is_guard = True
             if not is_guard:
                 continue
             # walk forward through straight-line / short-circuit blocks to the branch
